@@ -1,4 +1,5 @@
 import TemprenModel.Model.Printer
+import TemprenModel.Props.C10
 /-!
 # C11 — Pipe lists are exactly nested contexts
 -/
@@ -54,6 +55,60 @@ theorem pattern_pipe_nontag_rejected (fuel : Nat) (ts : List Tok) (elems : List 
 /-- Non-vacuity (token level, small fuel so that the kernel can evaluate it). -/
 example : parsePipes 6 [.pipe, .tagStart, .tagId ['A'], .argsStart, .argsEnd] =
     some ([.tag none ['A'] [] [] none], []) := by rfl
+
+/-! ### pipe = nested context, on the template TEXT (through lexer and parser) -/
+
+/-- **`x|%T()` and `%T(){x}` are the same template**, for every raw text `x` the grammar can carry (non-empty,
+    no `%`, no TAB/LF/CR, not ending in a backslash): both spellings go through the model of the whole front
+    end and yield the one tree in which the tag's context is exactly `x` -/
+theorem pipe_eq_nested_text (s : List Char) (hne : s ≠ []) (hok : C10.TextOk s) (hlast : s.getLast? ≠ some '\\') :
+    parseTemplate (escText s ++ "|%T()".toList) =
+      some (.cons (.tag none "T".toList [] [] (some (.cons (.raw s) .nil))) .nil) ∧
+    parseTemplate ("%T(){".toList ++ escText s ++ "}".toList) =
+      some (.cons (.tag none "T".toList [] [] (some (.cons (.raw s) .nil))) .nil) := by
+  obtain ⟨c, t, rfl⟩ : ∃ c t, s = c :: t := by
+    cases s with
+    | nil => exact absurd rfl hne
+    | cons c t => exact ⟨c, t, rfl⟩
+  obtain ⟨d, rest, hd, h1, h2, h3, h4, h5⟩ := C10.escText_head c t (hok c (by simp))
+  have hun := C10.unescape_escText (c :: t) hlast
+  constructor
+  · -- the piped spelling
+    have htake : takeText (escText (c :: t) ++ '|' :: "%T()".toList) = (escText (c :: t), '|' :: "%T()".toList) :=
+      C10.takeTextAux_escText_stop '|' (Or.inl rfl) _ (c :: t) false hok (fun h => by simp at h) hlast
+    have hlex : lex (escText (c :: t) ++ "|%T()".toList) =
+        some [.text (escText (c :: t)), .pipe, .tagStart, .tagId "T".toList, .argsStart, .argsEnd] := by
+      unfold lex
+      have e : escText (c :: t) ++ "|%T()".toList = d :: (rest ++ '|' :: "%T()".toList) := by
+        rw [hd]; simp
+      have htake' : takeText (d :: (rest ++ '|' :: "%T()".toList)) = (d :: rest, '|' :: "%T()".toList) := by
+        rw [← e, ← hd]; exact htake
+      rw [e]
+      simp only [List.length_cons, lexLoop, List.cons_ne_nil, if_false, lexStep, h1, Bool.false_eq_true, h2, h3, h4, h5,
+        htake']
+      rw [hd]
+      simp [lexLoop, lexStep, isGlobalWs, isIdStart, isIdChar, List.span, List.span.loop]
+    unfold parseTemplate
+    rw [hlex]
+    simp [parseTokens, parsePattern, parseElems, parsePipes, parseTag, parseTagBody, parseArgList, splitArgs, pipeFold,
+      Pat.ofList, hun]
+  · -- the nested spelling
+    have htake : takeText (escText (c :: t) ++ '}' :: []) = (escText (c :: t), ['}']) :=
+      C10.takeTextAux_escText_stop '}' (Or.inr (Or.inl rfl)) _ (c :: t) false hok (fun h => by simp at h) hlast
+    have hlex : lex ("%T(){".toList ++ escText (c :: t) ++ "}".toList) =
+        some [.tagStart, .tagId "T".toList, .argsStart, .argsEnd, .ctxStart, .text (escText (c :: t)), .ctxEnd] := by
+      unfold lex
+      have e : "%T(){".toList ++ escText (c :: t) ++ "}".toList = '%' :: 'T' :: '(' :: ')' :: '{' :: (d :: (rest ++ ['}'])) := by
+        rw [hd]; simp
+      have htake' : takeText (d :: (rest ++ ['}'])) = (d :: rest, ['}']) := by
+        have : d :: (rest ++ ['}']) = escText (c :: t) ++ ['}'] := by rw [hd]; simp
+        rw [this, ← hd]; exact htake
+      rw [e]
+      have h1' : ¬ (d = '\t' ∨ d = '\n' ∨ d = '\r') := by simpa [isGlobalWs] using h1
+      simp [lexLoop, lexStep, isGlobalWs, isIdStart, isIdChar, List.span, List.span.loop, h1', h2, h3, h4, h5, htake', hd]
+    unfold parseTemplate
+    rw [hlex]
+    simp [parseTokens, parsePattern, parseElems, parseTag, parseTagBody, parseArgList, splitArgs, Pat.ofList, hun]
 
 end C11
 end Tempren
